@@ -7,8 +7,9 @@
     order.  Lookups (`_, ok := m[k]`) are `List.contains`; `for k := range m` is a traversal of the
     list.  `len(m)` is `List.length`, which is faithful because the decoder (`decode*` below, like the
     real `Add`) never stores a key twice.  Go randomises the iteration order, so every function
-    whose RESULT can depend on the order takes the list in the order iterated (only
-    `BucketPolicyItem.Validate`'s action loop does: it `break`s at `s3:*`).
+    whose result could depend on the order takes the list in the order iterated (only
+    `BucketPolicyItem.Validate`'s action loop could; since the fix ade9d47 it `continue`s at `s3:*`
+    and Props.C14.validate_order_independent proves the order irrelevant for every document).
   * encoding/json is NOT modelled.  What is modelled of decoding is the decision logic of the
     `UnmarshalJSON` hooks over the generic shape of each member (`Field`: absent / string / array of
     strings / anything else) — empty string or array refused, `Add` validating every action
@@ -174,9 +175,10 @@ def principalsValidate (acct : Bytes → Bool) (ps : List Bytes) : Except VErr U
   else if ((toSlice ps).filter (fun a => !acct a)).length > 0 then .error .invalidPrincipal
   else .ok ()
 
-/-- `Resources.Validate` -/
+/-- `Resources.Validate`: `resource != bucket && !strings.HasPrefix(resource, bucket+"/")` is refused -/
 def resourcesValidate (bucket : Bytes) (rs : List Bytes) : Except VErr Unit :=
-  if rs.all (fun r => hasPrefix r bucket) then .ok () else .error .invalidResource
+  if rs.all (fun r => !(r ≠ bucket && !hasPrefix r (bucket ++ slashLit))) then .ok ()
+  else .error .invalidResource
 
 /-- `Resources.ContainsObjectPattern` -/
 def containsObjectPattern (rs : List Bytes) : Bool :=
@@ -208,7 +210,7 @@ def kindLoop (objRes bktRes : Bool) : List Bytes → Except VErr Unit
   | [] => .ok ()
   | a :: rest =>
     match actionKind a with
-    | .all => .ok ()                       -- `break`
+    | .all => kindLoop objRes bktRes rest  -- `continue`
     | .panic => .error .panic
     | .object => if !objRes then .error .resourceMismatch else kindLoop objRes bktRes rest
     | .bucket => if !bktRes then .error .resourceMismatch else kindLoop objRes bktRes rest
@@ -323,9 +325,5 @@ def validateDocument (ord : List Bytes → List Bytes) (bucket : Bytes) (acct : 
   let pol ← decodeDoc doc
   if pol.length = 0 then .error .emptyStatement
   else validatePolicy bucket acct (reorder ord pol)
-
-/-- iteration orders that realise the two extreme outcomes of the action loop -/
-def allFirst (l : List Bytes) : List Bytes := l.filter (· = allActions) ++ l.filter (· ≠ allActions)
-def allLast (l : List Bytes) : List Bytes := l.filter (· ≠ allActions) ++ l.filter (· = allActions)
 
 end Vgw.Model.Policy
